@@ -72,6 +72,13 @@ CHECKS = {
                      "unambiguous by construction; every single-edit mutant (retag, untag, type swap, make-OPTIONAL, duplicate identifier, duplicate enumeration "
                      "name/value, dangling reference) is judged by the model and by asn1c; acceptance must coincide, rejections must carry a diagnostic and write no file.",
                 note="Trusts vf/checks/c11faults.py:problems and vf/asn/model.py tag algebra; SEQUENCE extension markers, COMPONENTS OF, parameterised types not generated; mutants sampled (40/400 per base)."),
+    "C10": dict(level="exploration", engine="compiler-monitor", ref="DESIGN.md 4/C10",
+                technique="process-level monitor of the ASan-built asn1c (exit status, signals, sanitizer reports, diagnostics) plus build-and-walk monitor of the delivered file set",
+                text="Generated valid modules and single-fault mutants (tag collisions, duplicate identifiers/enumeration items, dangling references, inverted ranges, mistyped "
+                     "DEFAULTs) are compiled under each documented option alone and random option subsets; on exit 0 exactly the delivered files are compiled as C99, "
+                     "linked with the generic driver, the headers parsed as C++, and a descriptor-consistency walk (offsets, tag maps, optional-member tables, PER ranges, "
+                     "enumeration maps) run over every PDU; on rejection a diagnostic is required.",
+                note="Warnings ignored; UBSan reports of the compiler recorded only; option subsets sampled; descriptor walk checks structural invariants, not semantics."),
 }
 
 PENDING_REASON = "check not implemented yet (bring-up in progress; see DESIGN.md section 9)"
